@@ -1046,6 +1046,9 @@ var biases = map[string]bias{
 const defaultLimit = 25
 
 func main() {
+	// (a small stack limit: a recursion over a deeply nested value ends the process after 64 MB instead of 1 GB, so the
+	// matchdeep op can do with a value that is quick to build - under load a million levels took longer than the watchdog waits)
+	debug.SetMaxStack(64 << 20)
 	core.DefaultControl = &core.Control{Limit: defaultLimit}
 	switch os.Args[1] {
 	case "gen":
@@ -1136,7 +1139,6 @@ func main() {
 		// stepdrv collections <k> <out>: one step of a machine whose action builds an ES2015 collection (Map, Set) that
 		// contains itself and returns, emits or stores it.  One script per process: a script that the engine does not
 		// survive takes the process with it (the caller sees that).
-		debug.SetMaxStack(64 << 20)
 		k, _ := strconv.Atoi(os.Args[2])
 		src := collectionScripts[k%len(collectionScripts)]
 		spec := &core.Spec{Name: "collections", Nodes: map[string]*core.Node{
